@@ -60,7 +60,16 @@ func cmdParseFamilies(args []string) {
 	out := fs.String("out", "", "output ndjson")
 	only := fs.String("only", "", "run only this family")
 	jsonMax := fs.Int("json-max", 4000, "largest size at which json.Marshal is observed (it is quadratic in the nesting depth)")
+	list := fs.Bool("list", false, "print the family names and exit")
 	fs.Parse(args)
+	if *list {
+		names := []string{}
+		for _, f := range families {
+			names = append(names, f.name)
+		}
+		summary(map[string]any{"families": names})
+		return
+	}
 	r, closeFn := newRecorder(*out, false)
 	defer closeFn()
 	id := 0
